@@ -5,7 +5,7 @@ NA['C18'] = ('quantifies over thread schedules: sequential function contracts ca
 
 claim('C01', 'other',
       'Proved kernel + bounded: every ParticleMixin occurrence predicate and the OccursCalculator arithmetic are proved equal to the '
-      'XSD occurrence spec for all integers (deductive, unbounded); the content-model interpreter itself (ModelVisitor/XsdGroup.raw_decode) '
+      'XSD occurrence spec for all integers (deductive, unbounded), and XsdGroup.is_missing (missing iff below the minimum and not completable by empty iterations); the content-model interpreter itself (ModelVisitor/XsdGroup.raw_decode) '
       'is out of reach of the VC generator and is covered only by a bounded run-time contract (is_valid(doc(w)) <=> w in L(m)) over two exhaustively enumerated, baselined '
       'scopes of models (nested group first / sibling first, 141 344 models) and all words up to length 5, plus families for wildcard and all-group leaves, references to substitution-group '
       'heads (multi-level, abstract members), group references with their own occurrence, and - for XSD 1.1 - element particles competing with wildcards (judged where the two readings of the '
@@ -21,7 +21,7 @@ claim('C16', 'proof',
       'intersection; restriction only if included; overlap <=> sets intersect) are exactly the discharged postconditions. A bounded '
       'cross-check runs the same clauses on the real objects and through real schemas.',
       'Trusted: pyvc encoding (sets as arrays String->Bool, A-FRESH), z3/cvc5, get_namespace as an uninterpreted function, XsdWildcard.__copy__ '
-      'duplicating the three sets, well-formedness of parsed constraints (checked for _parse by the bounded part), XSI namespace outside the universe.',
+      'duplicating the three sets (a run-time contract on the real copy, not a proof), well-formedness of parsed constraints (checked for _parse by the bounded part), XSI namespace outside the universe.',
       'DESIGN.md 5/C16')
 
 claim('C15', 'other',
@@ -47,10 +47,11 @@ claim('C14', 'other',
 
 claim('C02', 'other',
       'Proved kernel + bounded: the 12 integer range validators are proved to accept exactly the XSD value ranges (all integers), the boolean '
-      'codec to decode exactly {true,false,1,0} and to round-trip; facet validators and first-match union / item-wise list decoding as listed in '
+      'codec to decode exactly {true,false,1,0} and to round-trip; the bound, length and digit facet validators (raise exactly outside the facet set), '
+      'XsdAtomicRestriction.raw_decode (validators applied once, patterns here or pushed), first-match union / item-wise list decoding as listed in '
       'the evidence. The built-in lexical spaces, whitespace normalisation, count_digits and derived restriction/list/union types are covered by '
       'bounded run-time contracts through the real schema API against reference functions written from XSD Part 2 (boundary catalogue exhaustive, '
-      'seeded mutations), including decode value and decode(encode(decode(t))) = decode(t).',
+      'seeded mutations), including decode value and decode(encode(decode(t))) = decode(t), and the typed decoding options (decimal_type / datetime_types / binary_types, every combination).',
       'Trusted: reference lexical functions (bounded/C02.py), elementpath datatypes as a dependency (two of its defects are listed findings), '
       'years beyond 9 digits and BCE leap days outside the deciding scope.',
       'DESIGN.md 5/C02')
@@ -61,7 +62,8 @@ claim('C03', 'other',
       'is_namespace_allowed / is_matching is proved under C16. The per-attribute decision loop of XsdAttributeGroup.raw_decode is covered by a '
       'bounded run-time contract through the real API: is_valid <=> attrs_valid and decoded absent attributes = fixed (+ defaults iff enabled), '
       'over 13 034 configurations x name subsets x values (quick: one sixteenth, ~870 000 cases), and a run-time contract on the real method with a spy on the attribute decoders '
-      '(processed attributes = instance attributes + absent value-constrained ones, in validation-only and decoding contexts; decoded result under fill_missing / filler).',
+      '(processed attributes = instance attributes + absent value-constrained ones, in validation-only and decoding contexts; decoded result under fill_missing / filler); '
+      'wildcards of shared attribute groups intersected by several consumers (a copy never aliases the shared wildcard: run-time contract on XsdWildcard.__copy__).',
       'Trusted: the set-based reference attrs_valid; the corner "prohibited declaration that the wildcard admits" is outside the deciding scope (reported).',
       'DESIGN.md 5/C03')
 
@@ -70,64 +72,64 @@ claim('C04', 'other',
       'is_valid/validate of components and of schemas over the ghost sequence of iter_errors (verdict = that of the first error, all arguments '
       'forwarded), and the CLI exit status (loop invariant; exit status 0 iff all files valid, for every error count) are proved. Agreement of '
       'all entry points, modes and 10 source kinds, package-level functions included, is a bounded run-time contract on generated faulty documents, '
-      'lxml trees and documents with comments, inheritable attributes (XSD 1.1 context copies), a strict wildcard; verdict agreement on five small schemas (mixed content with a fixed value, '
-      'list enumerations, an IDREF default); plus the CLI as a subprocess for 0, 1, 255, 256, 512 errors.',
+      'lxml trees and documents with comments, inheritable attributes (XSD 1.1 context copies), a strict wildcard; verdict agreement on nine small schemas run on one schema object in sequence (mixed content with a fixed value, '
+      'list enumerations and fixed lists, an IDREF default, a blocked xsi:type); plus the CLI as a subprocess for 0, 1, 255, 256, 512 errors.',
       'Trusted: POSIX 8-bit exit status; the non-interference of the validation mode before the first error is a 2-safety property outside this family and only bounded-checked.',
       'DESIGN.md 5/C04')
 claim('C05', 'other',
       'Bounded-dominated: the proved part is the boolean codec round trip (python_to_boolean / boolean_to_python) shared with C02; decode/encode '
       'round trip for 5 lossless converters and strict-encode soundness on mutated data (drop, duplicate, retype, reorder, rename, truncate; JsonML text insertions; a fixed attribute) are '
-      'bounded run-time contracts over generated documents.',
-      'Thin proved kernel (stated as such). Encoding performs no identity-constraint checks: listed finding.', 'DESIGN.md 5/C05')
+      'bounded run-time contracts over generated documents (nested declaration scopes included); the stacked set_xmlns_context is under a run-time contract (exhaustive two-level declaration maps).',
+      'Thin proved kernel (stated as such). Encoding performs no identity-constraint checks; namespace declarations on a child of the root are taken as root declarations: listed findings.', 'DESIGN.md 5/C05')
 claim('C06', 'other',
       'Proved kernel + bounded: loop-body equivalence of the eager and the lazy loader - for every event kind and every pre-state both loop bodies leave equal '
       'namespace stack, pending declarations and per-node maps (container operations uninterpreted), hence both attach the same in-scope namespaces to every node; '
       'the limit counter contract of _lazy_iterparse shared with C11. The equality lazy = eager of errors (in order), data and iteration multiset, thin and non-thin, '
-      'is a bounded run-time contract over generated documents (two schema templates, nested and redundant namespace declarations, childless roots). Depth 2 reported only.',
+      'is a bounded run-time contract over generated documents (two schema templates, nested and redundant namespace declarations, childless roots, documents beyond the parser block, path-based selection / validation / decoding). Depth 2 reported only.',
       'The order in which a lazy resource yields the descendants of a chunk is pinned by the test-suite and differs from document order: compared as multisets.', 'DESIGN.md 5/C06')
 claim('C07', 'other',
       'Proved kernel + bounded: statement contracts on the xsi:nil block and the xsi:type block of XsdElement.raw_decode (nilled <=> nillable and true and no '
       'fixed and empty; error <=> lookup fails or the named type is blocked) and XsdType.is_blocked are proved for all inputs; derivation, abstract, block '
       'defaults, substitution groups are covered by a bounded contract against a reference decision procedure over flag products (mixed two-step derivation chains included); '
-      'XsdComplexType.is_derived is under contract for the complex-content chain (a step of the other method never ends the search).',
+      'XsdComplexType.is_derived is under contract for the complex-content chain (a step of the other method never ends the search); XSD 1.1 type alternatives on inherited attributes are a bounded family.',
       'is_derived and get_instance_type are uninterpreted in the proofs and exercised only by the bounded part; XPath tests of type alternatives are elementpath.', 'DESIGN.md 5/C07')
 claim('C08', 'other',
       'Proved kernel + bounded: IdentityCounter.increase (exactly one duplicate error per repeated tuple), KeyrefCounter.increase, reset and '
       'KeyrefCounter.iter_errors (loop invariant: an error exactly for complete dangling tuples) and the ID/IDREF block of XsdAtomicBuiltin.raw_decode (duplicate '
       'exactly when registered as an ID before) are proved; selection of nodes and fields is XPath (elementpath) and is covered by a bounded contract against '
       'key_table_ok over exhaustive small tables with lexical variants (seven field types, three of them unions), a keyref referring to a key declared on a repeated '
-      'descendant (0-2 instances), a keyref on a repeated element with the key on its optional child (every instance against its own table), and ID/IDREF documents. '
+      'descendant (0-2 instances), a keyref on a repeated element with the key on its optional child (every instance against its own table), QName-typed fields under prefix rebinding, and ID/IDREF documents. '
       'XMLSchemaBase._validate_references (one error per unresolved IDREF, exactly the enabled keyrefs checked and forwarded) is proved by loop invariants.',
       'xs:unique over incomplete tuples is outside the deciding scope; the table propagation across repeated descendants is a listed finding; elements that exist only through xsi:type are invisible to selectors (observation in DESIGN.md).', 'DESIGN.md 5/C08')
 claim('C09', 'other',
       'Thin proved kernel + bounded: StagedMap (__getitem__ builds on demand and returns the built component, load refuses a second declaration of a name and '
       'commutes for distinct names, _build_global) and XsdGlobals.clear (every derived map is emptied on every path: a rebuild starts from nothing) are under contract; '
       'permutations, include splits, location spellings, rebuild, copy of the maps, pickle, import order are a bounded contract - each arrangement gives the same '
-      'global components, errors and data on five probes (with a keyref referring to a key declared on another element).',
+      'global components, errors and data on nine probes (a keyref referring to a key declared on another element, XSD 1.1 defaultAttributes, attribute groups with wildcards shared by several consumers).',
       'Thin: one hand-written family of 14 forward-referencing globals, not the corpus.', 'DESIGN.md 5/C09')
 claim('C10', 'other',
       'Proved kernel + bounded: ValidationContext.clear resets every status slot (slot list read from the real class) and IdentityCounter.reset are proved; a frame '
       'obligation over the 113 validation-path methods (writes to self within the stated frame; writes through component-holding locals only on objects created in '
-      'the same statement list) is decided syntactically on the real AST; absence of residue between calls is a bounded contract over seeded call histories compared with a fresh schema.',
-      'A-CACHE (memo caches are transparent) is assumed by the encoding.', 'DESIGN.md 5/C10')
+      'the same statement list) is decided syntactically on the real AST; absence of residue between calls is a bounded contract over seeded call histories compared with a fresh schema (xsi:type on fixed / referenced / blocked declarations, unions, on-demand namespace loads).',
+      'A-CACHE (memo caches are transparent) is assumed by the encoding. A namespace loaded on demand in the middle of a run rebuilds the components in use: listed finding.', 'DESIGN.md 5/C10')
 claim('C11', 'other',
       'Proved kernel + bounded: the depth / element counters of both loaders (XMLResourceExceeded raised exactly when a limit is exceeded; a document at '
       'the limit is processed), LimitsModule.__setattr__, raise_or_collect never raising in lax mode are proved; "verdict or library error" on '
       'mutated / truncated documents, extreme lexical values in identity fields and facets, blocked substitutions in lax / skip mode and the limit sweep are bounded; the handler that '
-      'collects the errors of the dynamic-context helper is a syntactic obligation.',
+      'collects the errors of the dynamic-context helper is a syntactic obligation; XMLResourceManager.__exit__ never swallows an exception (proved); the limit sweep runs over six source kinds (open files included).',
       'RecursionError for deep nesting and an elementpath assertion on odd namespace names in lazy mode are listed findings.', 'DESIGN.md 5/C11')
 claim('C12', 'proof',
       'XMLResource.access_control is proved for all strings: returning normally implies allowed(mode, url, base) with segment-wise containment for '
       'sandbox; only XMLResourceBlocked is raised; is_local_scheme and the local/remote classification are proved exact (exactly one class per URL-like string). '
       'Canonicalisation of spellings (normalize_url, urlsplit, pathlib) is assumed in the proof and exercised by an exhaustive bounded catalogue with an '
-      'audit hook: 5 modes x include/import/redefine/instance hint x 14 spellings, sandbox without an explicit base_url, parse() on resource / document objects. Propagation obligations '
+      'audit hook: 5 modes x include/import/redefine/instance hint x 14 spellings, sandbox without an explicit base_url, dotted absolute file URLs, parse() on resource / document objects. XMLResource.get_url is proved to return normalize_url of the mapped location. Propagation obligations '
       '(the base URL of the referring schema reaches every load; get_arguments returns every Argument of the class hierarchy) are decided on the real AST / real objects.',
       'Proved: the decision kernel. Assumed: normalize_url canonicalises, no symlinks, every fetch goes through access_control (dominance is checked by the bounded catalogue, not proved).',
       'DESIGN.md 5/C12')
 claim('C13', 'other',
       'Proved kernel + bounded: the defuse truth table of XMLResource.is_defused and the URL classes it uses are proved; refusal before expansion for 11 '
       'payloads x 4 modes x 21 source kinds (UTF-8, BOM, UTF-16) and for main / included schemas is a bounded contract with an audit hook on the secret file; the reset contract requires '
-      'parameter-entity parsing ALWAYS (external subset of standalone documents), and no return of open() precedes the defuse decision (syntactic).',
+      'parameter-entity parsing ALWAYS (external subset of standalone documents), and no return of open() precedes the defuse decision (syntactic); the document-level API forwards the resource options to the schema it builds (propagation obligations on get_context).',
       'expat calls the declaration handlers before any expansion (assumed). Large prolog on a non-seekable stream: listed finding.', 'DESIGN.md 5/C13')
 claim('C17', 'other',
       'Proved kernel + bounded: under the representation invariant R-INV, unmap_qname(map_qname(Q(u,l))) = Q(u,l) for all strings, map_qname and '
@@ -137,13 +139,13 @@ claim('C17', 'other',
 claim('C19', 'other',
       'Proved kernel + bounded: the positional step of etree_getpath (loop invariant with a counting function: position and sibling count are exact, a predicate '
       'is emitted iff there are same-tag siblings), error.elem defaulting in raise_or_collect and the consumption of pushed pattern facets on every exit of '
-      'XsdUnion.raw_decode (no stale facet reaches a later node) are proved; "a single fault is reported at the node or its '
-      'parent, every path selects exactly error.elem" is a bounded contract over every node x 6 fault kinds.',
+      'XsdUnion.raw_decode (no stale facet reaches a later node) and the fixed-value block of XsdElement.raw_decode (an error iff the text differs from the fixed value in the value space) are proved; "a single fault is reported at the node or its '
+      'parent, every path selects exactly error.elem" is a bounded contract over every node x 7 fault kinds.',
       'XPath evaluation of the path (elementpath) assumed.', 'DESIGN.md 5/C19')
 claim('C20', 'other',
       'Thin proved kernel + bounded: schema.find(path(e)) is the declaration that governed e (observed through the public validation_hook); iter_errors(path=p) equals the '
       'whole-document errors restricted to the selected subtree(s), positional and non-positional paths with a unique constraint on a repeated intermediate element, '
-      'prefixed and default-namespace forms; errors above a max_depth cut are unchanged. '
+      'prefixed and default-namespace forms, a no-namespace schema written with the XSD namespace as default; errors above a max_depth cut are unchanged. '
       'Decided on the code itself: XMLSchemaBase.get_element against the uninterpreted find() / global map (the declaration at the path when it is an element named tag, a local one before a '
       'global one of the same name; proved with cvc5/z3 strings) and, syntactically, that the list the resource iterator updates in place is never aliased in the path loop of iter_errors.',
       'The property is about XPath selection on the schema (elementpath): no per-function contract in /repo decides it.', 'DESIGN.md 5/C20')
